@@ -99,9 +99,13 @@ def run(c):
         for j, i in enumerate(midx):
             a = ldpc.Ans(ans[i])
             want = " ".join("S%d:%s:%s" % (s[1], s[2], s[3]) for s in a.steps)
-            got = ml[j].rsplit(" V", 1)[0] if j < len(ml) else None
+            mt = ml[j].split() if j < len(ml) else []
+            got = " ".join(x for x in mt if x[0] not in "VD")
             if got != want:
                 c.proof_failed.append({"correspondence": "dec/it", "request": reqs[i][:300], "c": want[:400], "model": (got or "")[:400]})
+                break
+            import session_check
+            if not session_check.state_digests_agree(c, a, next((x[1:].split(".") for x in mt if x.startswith("D")), []), reqs[i]):
                 break
     except vlib.BuildError as e:
         c.proof_failed.append({"model_build": str(e)[-1500:]})
